@@ -45,6 +45,8 @@ def make_case(tabs, nkeys, super_=True, loader="", shape=0):
     elif shape % 5 == 3 and len(tabs) >= 2:
         c["nest"] = "left"
         c["v0"] = [shape // 5 % len(tabs)]
+    elif shape % 5 == 4:
+        c["emptyat"] = shape // 5 % (len(tabs) + 1)     # the library's EmptySStableReader as one more member of the stack
     return c
 
 
